@@ -364,10 +364,10 @@ func (m Manager) onUpdate(ctx context.Context, event orm.DIDChangeLog) error {
 		return err
 	}
 	if resolver.IsDeactivated(*currentDIDDocument) {
-		// should not occur
 		// we're not using the deactivated flag in the resolver metadata since there could be conflicted docs
+		// fail the commit, so the change is rolled back for all DIDs of the subject.
 		log.Logger().Warnf("document (%s) is deactivated, won't update", currentDIDDocument.ID.String())
-		return nil
+		return resolver.ErrDeactivated
 	}
 	next, err := event.DIDDocumentVersion.ToDIDDocument()
 	if err != nil {
